@@ -85,9 +85,13 @@ fn realize(rng: &mut Rng, real: &[Option<u8>], alpha: &[u8]) -> Vec<u8> {
 	real.iter().map(|x| x.unwrap_or_else(|| if rng.chance(1, 2) { *rng.pick(alpha) } else { rng.byte() })).collect()
 }
 
-fn gen(rng: &mut Rng, _i: u64) -> String {
+fn gen(rng: &mut Rng, i: u64) -> String {
+	// every 8th case belongs to the VirtualSize / SizeOfRawData boundary stream: a file view whose sections have
+	// VirtualSize < SizeOfRawData (stored bytes that are not mapped) or VirtualSize > SizeOfRawData (virtual-only tail) by a
+	// small amount, matches planted across and beyond VA+VirtualSize, ranges that start or end at that boundary
+	let vsmode = i % 8 == 5;
 	let pe64 = rng.chance(1, 2);
-	let file = rng.chance(3, 5);
+	let file = rng.chance(3, 5) || vsmode;
 	let wrap = rng.chance(1, 3);
 	let e_lfanew = 0x80u32;
 	let mut spec = ImgSpec { pe64, e_lfanew, soh: 0x400, soi: 0, image_base: if pe64 { 0x1_4000_0000 } else { 0x40_0000 }, nrva: 16, dirs: vec![(0, 0); 16], opt_size: 0, nsec_field: 0, secs: Vec::new(), checksum: 0, magic: if pe64 { 0x20b } else { 0x10b } };
@@ -102,7 +106,7 @@ fn gen(rng: &mut Rng, _i: u64) -> String {
 	let qslen = plen.min(16);
 
 	// ---- sections
-	let malformed = rng.chance(1, 10);
+	let malformed = rng.chance(1, 10) && !vsmode;
 	let mut secs: Vec<Sec> = Vec::new();
 	let mut len: usize;
 	if malformed {
@@ -121,7 +125,12 @@ fn gen(rng: &mut Rng, _i: u64) -> String {
 		let mut prd = 0x400u32;
 		for i in 0..n {
 			let srd = *rng.pick(&[0u32, 0x13, 0x40, 0x80, 0x100, 0x100, 0x180, 0x200]);
-			let vs = match rng.below(6) { 0 => srd, 1 => srd + rng.range(1, 0x300) as u32, 2 => srd.saturating_sub(rng.range(1, 0x30) as u32), 3 => srd + 0x1000, _ => srd + rng.below(0x20) as u32 };
+			let mut vs = match rng.below(6) { 0 => srd, 1 => srd + rng.range(1, 0x300) as u32, 2 => srd.saturating_sub(rng.range(1, 0x30) as u32), 3 => srd + 0x1000, _ => srd + rng.below(0x20) as u32 };
+			let mut srd = srd;
+			if vsmode {
+				srd = *rng.pick(&[0x40u32, 0x80, 0x100, 0x180]);
+				vs = match rng.below(6) { 0 | 1 | 2 => srd - rng.range(1, 0x30) as u32, 3 => srd + rng.range(1, 0x30) as u32, 4 => srd + 0x1000, _ => srd - 1 };
+			}
 			let mut s = Sec { name: [0; 8], va, vs, prd: if file { prd } else { va }, srd, chars: 0x6000_0020 };
 			let nm = format!(".s{}", i);
 			s.name[..nm.len()].copy_from_slice(nm.as_bytes());
@@ -132,7 +141,7 @@ fn gen(rng: &mut Rng, _i: u64) -> String {
 			prd += srd;
 			if rng.chance(1, 4) { prd = (prd + 0x1ff) & !0x1ff; }
 		}
-		if n > 1 && rng.chance(1, 10) { let i = rng.below(n as u64) as usize; let j = rng.below(n as u64) as usize; secs.swap(i, j); } // F28
+		if n > 1 && !vsmode && rng.chance(1, 10) { let i = rng.below(n as u64) as usize; let j = rng.below(n as u64) as usize; secs.swap(i, j); } // F28
 		len = if file { prd as usize } else { va as usize };
 		if file && rng.chance(1, 12) { len = len.saturating_sub(rng.range(1, 0x40) as usize).max(0x400); } // raw data partly outside the file
 		if !file && rng.chance(1, 6) { len = len.saturating_sub(rng.range(1, 0x1100) as usize).max(0x1000); } // mapped image shorter than its sections
@@ -147,13 +156,13 @@ fn gen(rng: &mut Rng, _i: u64) -> String {
 	let mut pokes: Vec<(usize, Vec<u8>)> = Vec::new();
 	let mut planted: Vec<u32> = Vec::new(); // rvas
 	let bg = rng.below(4);
-	let mut regions: Vec<(usize, usize, u32)> = Vec::new(); // (buffer offset, length, rva of first byte)
+	let mut regions: Vec<(usize, usize, u32, usize)> = Vec::new(); // (buffer offset, length, rva of first byte, VirtualSize)
 	for s in &secs {
 		let off = if file { s.prd as usize } else { s.va as usize };
 		let n = (s.srd as usize).min(0x800);
-		if off >= hdr_end && off < len && n > 0 { regions.push((off, n.min(len - off), s.va)); }
+		if off >= hdr_end && off < len && n > 0 { regions.push((off, n.min(len - off), s.va, s.vs as usize)); }
 	}
-	for &(off, n, rva) in &regions {
+	for &(off, n, rva, vsz) in &regions {
 		let mut buf: Vec<u8> = match bg {
 			0 => (0..n).map(|_| *rng.pick(&alpha)).collect(),                                     // only pattern bytes: many partial matches
 			1 => (0..n).map(|_| if rng.chance(3, 4) { *rng.pick(&alpha) } else { rng.byte() }).collect(),
@@ -163,6 +172,18 @@ fn gen(rng: &mut Rng, _i: u64) -> String {
 		// planted realisations: start, end, around the end, overlapping, adjacent, random
 		let m = real.len().max(1);
 		let mut at: Vec<i64> = Vec::new();
+		if vsmode { // around VA+VirtualSize: straddling it, ending at it, starting at it, in the stored bytes beyond it
+			for _ in 0..rng.range(2, 5) {
+				at.push(match rng.below(6) {
+					0 => vsz as i64 - rng.below(m as u64 + 1) as i64,
+					1 => vsz as i64 - m as i64,
+					2 => vsz as i64 - qslen as i64 + rng.below(2) as i64,
+					3 => vsz as i64 + rng.below(3) as i64,
+					4 if vsz < n => vsz as i64 + rng.below((n - vsz) as u64) as i64,
+					_ => rng.below(n as u64) as i64,
+				});
+			}
+		}
 		for _ in 0..rng.range(1, 6) {
 			at.push(match rng.below(9) {
 				0 => 0,
@@ -192,6 +213,12 @@ fn gen(rng: &mut Rng, _i: u64) -> String {
 	let edge = |rng: &mut Rng| -> u32 { let e = *rng.pick(&edges) + rng.range(0, 4) as i64 - 2; e.max(0).min(0xFFFF_FFFF) as u32 };
 	let (rstart, rend): (u32, u32) = if secs.is_empty() { (0, spec.soi) } else {
 		let s = rng.pick(&secs).clone();
+		if vsmode && rng.chance(3, 4) {
+			let lo = s.va + s.vs.min(s.srd); let hi = s.va + s.vs.max(s.srd);
+			let a = match rng.below(6) { 0 => s.va, 1 => lo - rng.below(3) as u32, 2 => lo + rng.below(3) as u32, 3 => lo.saturating_sub(real.len() as u32 + rng.below(3) as u32), 4 => hi - rng.below(3) as u32, _ => s.va + rng.below(s.srd as u64) as u32 };
+			let b = match rng.below(6) { 0 => 0xFFFF_FFFF, 1 => hi + 0x20, 2 => lo + rng.below(3) as u32, 3 => hi, 4 => spec.soi, _ => lo - rng.below(3) as u32 };
+			(a, b)
+		} else {
 		match rng.below(16) {
 			0 | 1 => (s.va, s.va.wrapping_add(s.vs)),                                   // like code_range
 			2 => (s.va, s.va.wrapping_add(s.srd)),
@@ -205,6 +232,7 @@ fn gen(rng: &mut Rng, _i: u64) -> String {
 			11 => (s.va.wrapping_sub(rng.below(3) as u32), 0xFFFF_FFFF - rng.below(2) as u32),
 			10 => (secs[0].va.wrapping_add(rng.below(0x40) as u32), secs[secs.len() - 1].va.wrapping_add(rng.below(0x100) as u32)), // cross-section
 			_ => { let a = edge(rng); let b = edge(rng); (a.min(b), a.max(b)) },
+		}
 		}
 	};
 	let save_len = pelite::pattern::save_len(&atoms);
